@@ -485,3 +485,5 @@ def run(ctx, prog):
     ctx.floor('metric overrides', n2, 3)
     ctx.floor('_compute functions with divisions (partitioned)', n3, 1)
     ctx.floor('axis obligations (partitioned)', n4, 50)
+    from .. import kernelvalues as _kv
+    ctx.floor('kernel value cases interpreted', _kv.clause(ctx, prog, 'C04-D12', ('partitioned',)), 20)
